@@ -39,6 +39,11 @@ Section DataSaver.
     let e := aset x result (extra s) in
     mk (GenericLearner.tell L (child s) x y) e.
 
+  (* DataSaver does not override tell_many: BaseLearner.tell_many is
+     "for x, y in zip(xs, ys): self.tell(x, y)" *)
+  Definition tell_many (s : dst) (xrs : list (point L * R)) : dst :=
+    fold_left (fun s xr => tell s (fst xr) (snd xr)) xrs s.
+
   Definition tell_pending (s : dst) (x : point L) : dst :=
     mk (GenericLearner.tell_pending L (child s) x) (extra s).
 
@@ -67,6 +72,7 @@ Section DataSaver.
   Inductive op :=
   | Ask (n : nat) (commit : bool)
   | Tell (x : point L) (r : R)
+  | TellMany (xrs : list (point L * R))
   | TellPending (x : point L)
   | Loss (real : bool)
   | RemoveUnfinished.
@@ -75,6 +81,7 @@ Section DataSaver.
     match o with
     | Ask n c => let '((pts, imps), s') := ask s n c in (s', LOAsk pts imps)
     | Tell x r => (tell s x r, LONone)
+    | TellMany xrs => (tell_many s xrs, LONone)
     | TellPending x => (tell_pending s x, LONone)
     | Loss real => (s, LOLoss (loss s real))
     | RemoveUnfinished => (remove_unfinished s, LONone)
@@ -88,16 +95,40 @@ Section DataSaver.
     | o :: h' => snd (step s o) :: trace (fst (step s o)) h'
     end.
 
-  (* the same history as the unwrapped learner sees it: picked values *)
-  Definition pick_op (o : op) : lop L :=
+  (* the same history as the unwrapped learner sees it: picked values, a
+     batch being the sequence of its tells *)
+  Definition pick_ops (o : op) : list (lop L) :=
     match o with
-    | Ask n c => LAsk n c
-    | Tell x r => LTell x (pick r)
-    | TellPending x => LTellPending x
-    | Loss real => LLoss real
-    | RemoveUnfinished => LRemoveUnfinished
+    | Ask n c => [LAsk n c]
+    | Tell x r => [LTell x (pick r)]
+    | TellMany xrs => map (fun xr => LTell (fst xr) (pick (snd xr))) xrs
+    | TellPending x => [LTellPending x]
+    | Loss real => [LLoss real]
+    | RemoveUnfinished => [LRemoveUnfinished]
     end.
+
+  (* what the unwrapped learner in state k answers to the operation *)
+  Definition out_on_child (k : state L) (o : op) : lout L :=
+    match o with
+    | TellMany _ => LONone
+    | _ => match pick_ops o with c :: _ => snd (lstep k c) | [] => LONone end
+    end.
+
+  Fixpoint ctrace (k : state L) (h : list op) : list (lout L) :=
+    match h with
+    | [] => []
+    | o :: h' => out_on_child k o :: ctrace (lrun k (pick_ops o)) h'
+    end.
+
+  (* the (point, full result) pairs an operation tells, in order *)
+  Definition told_of (o : op) : list (point L * R) :=
+    match o with
+    | Tell x r => [(x, r)]
+    | TellMany xrs => xrs
+    | _ => []
+    end.
+  Definition tolds (h : list op) : list (point L * R) := flat_map told_of h.
 End DataSaver.
 
-Arguments Ask {L R}. Arguments Tell {L R}. Arguments TellPending {L R}.
+Arguments Ask {L R}. Arguments Tell {L R}. Arguments TellMany {L R}. Arguments TellPending {L R}.
 Arguments Loss {L R}. Arguments RemoveUnfinished {L R}.
